@@ -153,7 +153,8 @@ def batch(case, wctx):
 
 def run(ctx):
     quick = ctx.tier == "quick"
-    n = 64 if quick else 3000
+    n = 64 if quick else 1500
+    n = int(os.environ.get("VP_DEV_N") or n)  # development aid: a prefix of the same case sequence
     rng = ctx.rng("gen")
     cases = [gen_case(rng, i, rich=True) for i in range(n)]
     per = 4 if quick else 40
@@ -163,7 +164,7 @@ def run(ctx):
                 "with the fake lmod; non-trivial = >=2 module variables and caller variables the modules do not "
                 "touch; distinct = distinct generated case")
     results = ctx.pmap("vp.props.c39:batch", [{"cases": cases[i:i + per]} for i in range(0, n, per)],
-                       nproc=8 if quick else 16, timeout=300 if quick else 1500)
+                       nproc=8 if quick else 16, timeout=300 if quick else 7200)
     hist = {}
     for b in results:
         for r in b.get("multi", [b]):
